@@ -29,6 +29,9 @@ var crashFiles = []string{
 	"internal/cmd/cmds/build.go",
 }
 
+// backendDecorated reports whether the fault-injecting backend decorator / fake remote could be attached.
+var backendDecorated = true
+
 // faultBinary builds grog with crash points and the fault-injecting backend decorator.
 func faultBinary(c *Ctx) (string, int) {
 	ov := vc.NewOverlay()
@@ -62,12 +65,14 @@ func faultBinary(c *Ctx) (string, int) {
 		return "", 0
 	}
 	if !bytes.Contains(cb, []byte("func GetCacheBackend(")) {
-		c.R.BrokenCheck("cache_backend.go no longer defines GetCacheBackend: the fault-injecting decorator cannot be attached")
-		return "", 0
+		// refactored away: crash points still work, backend faults and the fake remote cannot be attached
+		c.R.Cap("cache_backend.go no longer defines GetCacheBackend: the fault-injecting backend decorator is not attached (no storage faults, no fake remote)")
+		backendDecorated = false
+	} else {
+		cb = bytes.Replace(cb, []byte("func GetCacheBackend("), []byte("func verifOrigGetCacheBackend("), 1)
+		ov.AddContent("fault", "internal/caching/backends/cache_backend.go", cb)
+		ov.AddFile("internal/caching/backends/zverif_faulty_backend.go", filepath.Join(vc.HarnessDir, "_faulty", "zverif_faulty_backend.go"))
 	}
-	cb = bytes.Replace(cb, []byte("func GetCacheBackend("), []byte("func verifOrigGetCacheBackend("), 1)
-	ov.AddContent("fault", "internal/caching/backends/cache_backend.go", cb)
-	ov.AddFile("internal/caching/backends/zverif_faulty_backend.go", filepath.Join(vc.HarnessDir, "_faulty", "zverif_faulty_backend.go"))
 	bin, err := vc.BuildGrog("grog-fault", ov)
 	if err != nil {
 		c.R.BrokenCheck("%v", err)
